@@ -106,3 +106,34 @@ Qed.
 
 Lemma in_loc_dirs locs dirs li d : In li locs -> In d dirs -> In (li, d) (loc_dirs locs dirs).
 Proof. intros H1 H2. unfold loc_dirs. apply in_flat_map. exists li. split; [exact H1|apply in_map; exact H2]. Qed.
+
+(* ---- registration with the realpath branch ---- *)
+Lemma le_reg_dir_rp tab rp s e : le s (reg_dir_rp tab rp s e).
+Proof.
+  unfold reg_dir_rp. destruct (available s (snd e) (key_of tab (fst e))); [apply le_refl|].
+  destruct (path_eqb (rp e) (snd e)); [apply le_register|].
+  eapply le_trans; apply le_register.
+Qed.
+Lemma le_reg_dirs_rp tab rp l : forall s, le s (reg_dirs_rp tab rp s l).
+Proof. unfold reg_dirs_rp. apply le_fold. intros. apply le_reg_dir_rp. Qed.
+Lemma reg_dir_rp_available tab rp s e : available (reg_dir_rp tab rp s e) (snd e) (key_of tab (fst e)) = true.
+Proof.
+  unfold reg_dir_rp. destruct (available s (snd e) (key_of tab (fst e))) eqn:E; [exact E|].
+  destruct (path_eqb (rp e) (snd e)); apply register_available; try discriminate; left; reflexivity.
+Qed.
+Lemma reg_dirs_rp_available tab rp l : forall s e,
+  In e l -> available (reg_dirs_rp tab rp s l) (snd e) (key_of tab (fst e)) = true.
+Proof.
+  unfold reg_dirs_rp. induction l as [|x l IH]; simpl; intros s e []; [subst x|].
+  - eapply available_le; [apply (le_reg_dirs_rp tab rp l)|apply reg_dir_rp_available].
+  - apply IH. assumption.
+Qed.
+(* when the directory had to be registered and resolves elsewhere, the real path is registered too *)
+Lemma reg_dir_rp_realpath tab rp s e :
+  available s (snd e) (key_of tab (fst e)) = false -> rp e <> snd e ->
+  available (reg_dir_rp tab rp s e) (rp e) (key_of tab (fst e)) = true.
+Proof.
+  intros A Hne. unfold reg_dir_rp. rewrite A.
+  destruct (path_eqb (rp e) (snd e)) eqn:E; [apply path_eqb_eq in E; contradiction|].
+  eapply available_le; [apply le_register|]. apply register_available; [discriminate|left; reflexivity].
+Qed.
